@@ -402,10 +402,10 @@ func (s *Module) defineSyncStage() error {
 		}
 	}
 
-	if s.syncStage == headersSynced|blocksSynced|mptSynced {
-		s.log.Info("state is in sync, starting regular blocks processing")
-		s.syncStage = inactive
-	}
+	// All the data is collected, but the chain is still below the sync point: the
+	// node was stopped after the last block was stored and before the state jump
+	// was started, so perform the jump now.
+	s.checkSyncIsCompleted()
 	return nil
 }
 
